@@ -217,6 +217,20 @@ func c01(r *Report, s *Sem) {
 			eachCall(uj, func(c2 ssa.CallInstruction) {
 				if staticCallee(c2) == cp.Dec && len(c2.Common().Args) == 2 && stripConv(c2.Common().Args[1]) == tgt {
 					okU = true
+					// the wire→struct function only assigns the members that are present: it must fill a fresh value, not the
+					// decode target itself, which may hold a previously decoded envelope
+					into := stripConv(c2.Common().Args[0])
+					if _, isLocal := into.(*ssa.Alloc); !isLocal {
+						okU = false
+						whyU = "the wire→struct function is applied to " + describe(into) + ", not to a fresh local value: optional members absent from the JSON keep whatever the target held before"
+					} else {
+						for _, ref := range *into.(*ssa.Alloc).Referrers() {
+							if st, ok := ref.(*ssa.Store); ok && st.Addr == into && !isZeroValue(st.Val) && instrDominates(st, c2.(ssa.Instruction)) {
+								okU = false
+								whyU = "the value handed to the wire→struct function is pre-filled from " + describe(st.Val)
+							}
+						}
+					}
 				}
 			})
 		})
@@ -544,6 +558,41 @@ func c01Registries(r *Report, s *Sem, R5 string) {
 			}
 		})
 		r.Check(R5, "func RegisterDocumentFactory / key is product media type", p.pos(reg.Pos()), ok, why)
+		// a registration always takes effect, and nothing else fills the registry: a lookup that caches its fallback, or a
+		// registration that keeps an earlier entry, makes a registered type decode as a generic document
+		var regMap ssa.Value
+		uncond := false
+		eachInstr(reg, func(in ssa.Instruction) {
+			if mu, isMU := in.(*ssa.MapUpdate); isMU && stripConv(mu.Value) == ssa.Value(reg.Params[0]) {
+				regMap = pathOf(mu.Map).Root
+				uncond = true
+				eachInstr(reg, func(in2 ssa.Instruction) {
+					if ret, isRet := in2.(*ssa.Return); isRet && !instrDominates(mu, ret) && ret.Block() != reg.Recover {
+						uncond = false
+					}
+				})
+			}
+		})
+		r.Check(R5, "func RegisterDocumentFactory / the registration is unconditional", p.pos(reg.Pos()), uncond, "every return must be preceded by the store of the factory under its media type (the latest registration wins)")
+		if g, isGlobal := regMap.(*ssa.Global); isGlobal {
+			for _, fn := range p.LimeFuncs() {
+				if topLevel(fn) == reg || strings.HasPrefix(topLevel(fn).Name(), "init") {
+					continue
+				}
+				eachInstr(fn, func(in ssa.Instruction) {
+					switch x := in.(type) {
+					case *ssa.MapUpdate:
+						if pathOf(x.Map).Root == ssa.Value(g) {
+							r.Check(R5, "func "+fnName(fn)+" / writes the document factory registry", p.instrPos(in), false, "only RegisterDocumentFactory and package initialisation may fill the registry")
+						}
+					case *ssa.Store:
+						if x.Addr == ssa.Value(g) {
+							r.Check(R5, "func "+fnName(fn)+" / replaces the document factory registry", p.instrPos(in), false, "only package initialisation may assign the registry")
+						}
+					}
+				})
+			}
+		}
 	} else {
 		r.Undecided(R5, "anchor-unresolved:RegisterDocumentFactory", "-", "exported function not found")
 	}
@@ -817,4 +866,22 @@ func (p *Prog) reachableAny(fn *ssa.Function, depth int) map[*ssa.Function]bool 
 	}
 	rec(fn, 0)
 	return out
+}
+
+// isZeroValue: a constant zero or an empty composite (what `T{}` stores).
+func isZeroValue(v ssa.Value) bool {
+	if c, ok := v.(*ssa.Const); ok {
+		if c.Value == nil {
+			return true
+		}
+		switch c.Value.Kind() {
+		case constant.String:
+			return constant.StringVal(c.Value) == ""
+		case constant.Bool:
+			return !constant.BoolVal(c.Value)
+		case constant.Int:
+			return constant.Sign(c.Value) == 0
+		}
+	}
+	return false
 }
